@@ -212,6 +212,25 @@ def run(rep) -> None:
                 g = gen.generate(rdoc, pk)
                 if not g["exc"] and not g["rejected"]:
                     packages.append(pk)
+        # names the generated MODEL code uses itself (harvested from the code under test on each run) as property names of models whose
+        # additional properties need transforming: a loop variable or helper that shares a name with a declared property shows up as a
+        # type error (and as wrong behaviour in C18)
+        from . import C18 as c18
+        _, scopes = c18.harvest(d)
+        # names whose capture is a recorded C18 finding (prop, additional_property_item*, ...) are judged there, by name
+        import fnmatch, re as _re
+        from .. import findings as _findings
+        recorded = [m.group(1) for e in _findings.load() if e.get("status") == "open" and e.get("property") == "C18" for m in [_re.search(r"name=([A-Za-z_*]+)", e["key"])] if m]
+        owned = [n for n in scopes["model"] if n.isidentifier() and n.islower() and not n.startswith("_") and not any(fnmatch.fnmatchcase(n, pat) for pat in recorded)][:120]
+        rep.extra["harvested_model_names_type_checked"] = len(owned)
+        cap = {"M": {"type": "object", "required": ["v"], "properties": {"v": {"type": "integer"}}}, "E": {"type": "string", "enum": ["x", "y"]}}
+        for i, n in enumerate(owned):
+            cap[f"Cap{i}M"] = {"type": "object", "required": [n], "properties": {n: {"type": "integer"}, "zother": {"type": "string"}}, "additionalProperties": {"$ref": "#/components/schemas/M"}}
+            cap[f"Cap{i}E"] = {"type": "object", "properties": {n: {"type": "integer"}, "zother": {"type": "string"}}, "additionalProperties": {"$ref": "#/components/schemas/E"}}
+            cap[f"Cap{i}L"] = {"type": "object", "properties": {n: {"type": "string"}}, "additionalProperties": {"type": "array", "items": {"type": "string", "format": "date"}}}
+        g = gen.generate(gen.mkdoc(schemas=cap), d / "capnames")
+        if not g["exc"] and not g["rejected"]:
+            packages.append(d / "capnames")
         if quick:       # the packed codec packages are large: type-check one of each style + everything else
             keep = [p for p in packages if not p.name.startswith("pk")] + [p for p in packages if p.name == "pk0"]
             packages = keep
